@@ -10,8 +10,10 @@ import (
 	"fmt"
 	"os"
 	"path/filepath"
+	"sort"
 	"strings"
 
+	"github.com/compose-spec/compose-go/v2/interpolation"
 	"github.com/compose-spec/compose-go/v2/loader"
 	"github.com/compose-spec/compose-go/v2/template"
 	"github.com/compose-spec/compose-go/v2/types"
@@ -29,7 +31,8 @@ func init() {
 		Level: "exploration",
 		Rule: "part 1: every derivation of T ::= (literal | $$ | $NAME | ${NAME} | ${NAME op T})* with at most 4 grammar items in total and nesting <=2 (complete; thorough adds nesting 3 and a seed-selected eighth of the 5-item derivations; 3 names, literals incl. operator characters) x 6 variable environments, each compared with a reference evaluator written from the statement; " +
 			"part 2: every string over {$ { } : - + ? A _ 1 space} up to a length bound x 2 environments (no panic; in-grammar strings decided by the reference; malformed ${...} must be an error); " +
-			"part 3: a sample pushed through loader.LoadWithContext as image/label values. A case is non-trivial when its template contains at least one substitution and the statement decides its outcome; distinct = distinct template texts.",
+			"part 2b: a malformed substitution nested in the operand of every operator form (selected by the state of the outer variable or not), classified by the reference parser; " +
+			"part 3: a sample pushed through loader.LoadWithContext as image/label values, and through interpolation.Interpolate as a tree (under mappings and inside sequences) interpolated three times with two different mappings. A case is non-trivial when its template contains at least one substitution and the statement decides its outcome; distinct = distinct template texts.",
 		Assumptions: []string{
 			"the reference evaluator (internal/ref/interp.go) is a faithful reading of the statement",
 			"where the statement is silent (errors inside an unused default/replacement/message, `$` followed by a non-name character, bare `{` inside nested text, the partial value returned along with an error) no outcome is asserted, only absence of a panic",
@@ -349,6 +352,7 @@ func run(s *core.Shard) {
 			// part 3: a sample also goes through the loader
 			if n%97 == 0 {
 				loaderCase(s, tmpl, t, envs[n/97%len(envs)])
+				treeCase(s, tmpl, t, n/97)
 			}
 		})
 	}
@@ -395,6 +399,122 @@ func run(s *core.Shard) {
 		}
 	}
 	gen()
+
+	// ---- part 2b: a malformed substitution nested in an operand, used or not ------
+	// (longer than the strings of part 2: built, then classified by the reference parser; a
+	// malformed `${` is an error wherever it stands, also inside a default, replacement or message
+	// that the state of the outer variable does not select)
+	frags := []string{"${}", "${ }", "${x!}", "${1A}", "${A", "${", "${A:}", "${A:-", "${-d}", "${A B}", "${A$}"}
+	pres := []string{"", "t", "${A}", "$$"}
+	posts := []string{"", "z", "$B_1"}
+	ops := []string{":-", "-", ":+", "+", ":?", "?"}
+	vars := []string{"A", "B_1", "u"}
+	k = 0
+	for _, v := range vars {
+		for _, op := range ops {
+			for _, f := range frags {
+				for _, pre := range pres {
+					for _, post := range posts {
+						for depth := 1; depth <= 2; depth++ {
+							k++
+							if !s.Mine(k) {
+								continue
+							}
+							if k%500 == 1 {
+								s.Begin(fmt.Sprintf("nested-malformed/%d", k))
+							}
+							operand := pre + f + post
+							if depth == 2 {
+								operand = "x${" + vars[(k/7)%3] + ops[(k/3)%6] + operand + "}"
+							}
+							str := "a ${" + v + op + operand + "} b"
+							items, st := ref.Parse(str)
+							s.Cover("nested-malformed-class", [...]string{"in-grammar", "malformed", "unspecified"}[st])
+							for _, e := range envs {
+								var want ref.Outcome
+								if st == ref.InGrammar {
+									want = ref.Eval(items, lookup(e.M))
+								}
+								if st == ref.Malformed {
+									val, set := e.M[v]
+									used := map[string]bool{":-": !set || val == "", "-": !set, ":+": set && val != "", "+": set, ":?": !set || val == "", "?": !set}[op]
+									s.Cover("nested-malformed-operand", map[bool]string{true: "selected", false: "not selected"}[used]+" "+op)
+								}
+								compare(s, str, want, st, e, "nested-malformed")
+							}
+						}
+					}
+				}
+			}
+		}
+	}
+}
+
+// treeCase interpolates one parsed tree (the template under mappings and inside sequences) once per
+// variable mapping, the way one parsed model is interpolated for several environments: every call
+// must give the value of its own mapping at every position.
+func treeCase(s *core.Shard, tmpl string, t []ref.Item, k int) {
+	tree := map[string]any{
+		"m": map[string]any{"k": tmpl, "n": map[string]any{"k": tmpl}},
+		"l": []any{tmpl, map[string]any{"k": tmpl}, []any{tmpl, "lit"}, tmpl},
+	}
+	var leaves func(v any, path string, f func(path, sv string))
+	leaves = func(v any, path string, f func(path, sv string)) {
+		switch x := v.(type) {
+		case string:
+			f(path, x)
+		case map[string]any:
+			keys := make([]string, 0, len(x))
+			for key := range x {
+				keys = append(keys, key)
+			}
+			sort.Strings(keys)
+			for _, key := range keys {
+				leaves(x[key], path+"."+key, f)
+			}
+		case []any:
+			for i, e := range x {
+				leaves(e, fmt.Sprintf("%s[%d]", path, i), f)
+			}
+		}
+	}
+	for call := 0; call < 3; call++ {
+		e := envs[(k+call*5)%len(envs)] // call 0 and 2 differ from call 1
+		want := ref.Eval(t, lookup(e.M))
+		if want.Unspecified {
+			continue
+		}
+		var got map[string]any
+		var err error
+		pi := core.Guard(func() { got, err = interpolation.Interpolate(tree, interpolation.Options{LookupValue: lookup(e.M)}) })
+		s.Eval(1)
+		s.Add("tree_calls", 1)
+		files := map[string]any{"case.json": replayCase{Template: tmpl, Env: e.M}}
+		if pi != nil {
+			s.Violation(map[string]string{"kind": "panic", "site": pi.Site, "class": pi.Class}, "interpolation.Interpolate panicked on a tree holding "+tmpl+": "+pi.Value, files)
+			return
+		}
+		if want.Err {
+			if err == nil {
+				s.Violation(map[string]string{"kind": "missing-error", "origin": "tree"}, fmt.Sprintf("tree holding %q (env %s, call %d on the same tree) interpolated although the substitution must fail", tmpl, e.Name, call+1), files)
+			}
+			continue
+		}
+		if err != nil {
+			s.Violation(map[string]string{"kind": "unexpected-error", "origin": "tree"}, fmt.Sprintf("tree holding %q (env %s, call %d on the same tree) failed: %v", tmpl, e.Name, call+1, err), files)
+			return
+		}
+		bad := ""
+		leaves(got, "", func(path, sv string) {
+			if bad == "" && sv != want.Value && !(strings.HasSuffix(path, "[1]") && sv == "lit") {
+				bad = fmt.Sprintf("%s = %q", path, sv)
+			}
+		})
+		if bad != "" {
+			s.Violation(map[string]string{"kind": "wrong-value", "origin": "tree"}, fmt.Sprintf("tree holding %q (env %s, call %d on the same tree): %s, expected %q", tmpl, e.Name, call+1, bad, want.Value), files)
+			return
+		}
+	}
 }
 
 // loaderCase checks that a project loaded from a document using the template
@@ -405,8 +525,8 @@ func loaderCase(s *core.Shard, tmpl string, t []ref.Item, e envDef) {
 		return
 	}
 	doc := map[string]any{"services": map[string]any{"s": map[string]any{
-		"image":  "img",
-		"labels": map[string]any{"l": tmpl},
+		"image":   "img",
+		"labels":  map[string]any{"l": tmpl},
 		"command": []any{tmpl},
 	}}}
 	b, err := yaml.Marshal(doc)
